@@ -23,16 +23,21 @@ def gen_cases(rng, tier):
                 for c in [None, -4, -3, -2, -1, 1, 2, 3, 4, 0]:
                     if tier == 'quick' and rng.random() < 0.6: continue
                     yield {'op': 'slice', 'cls': rng.choice(CLASSES), 'bits': bits, 'k': [a, b, c], 'route': rng.choice(ROUTES)}
+                    if rng.random() < 0.3:      # the same sequence law under options.lsb0: the sequence is then the reversed bit string
+                        yield {'op': 'slice', 'cls': rng.choice(CLASSES), 'bits': bits, 'k': [a, b, c], 'route': 'bin', 'lsb0': True}
                     if rng.random() < 0.15:
                         yield {'op': 'l0_slice', 'bits': bits, 'k': [a, b, c]}
         for i in range(-l - 3, l + 4):
             yield {'op': 'getitem', 'cls': rng.choice(CLASSES), 'bits': bits, 'i': i, 'route': rng.choice(ROUTES)}
+            yield {'op': 'getitem', 'cls': rng.choice(CLASSES), 'bits': bits, 'i': i, 'route': 'bin', 'lsb0': True}
     N = 400 if tier == 'quick' else 6000
     for _ in range(N):
         l = rand_len(rng, tier)
         bits = rand_bits(rng, l)
         r = lambda: rng.choice([None, None, rng.randrange(-l - 3, l + 4), rng.randrange(-2 * l - 3, 2 * l + 4)])
         yield {'op': 'slice', 'cls': rng.choice(CLASSES), 'bits': bits, 'k': [r(), r(), rng.choice([None, 1, -1, 2, -2, 3, 7, -5, l + 1, -(l + 1), 1 << 70])], 'route': rng.choice(ROUTES)}
+        if rng.random() < 0.4:
+            yield {'op': 'slice', 'cls': rng.choice(CLASSES), 'bits': bits, 'k': [r(), r(), rng.choice([None, 1, -1, 2, -2, 3, -3, 7, -5, -7])], 'route': 'bin', 'lsb0': True}
         yield {'op': 'getitem', 'cls': rng.choice(CLASSES), 'bits': bits, 'i': rng.choice([0, -1, l - 1, l, -l, -l - 1, rng.randrange(-l - 2, l + 3), 1 << 65, -(1 << 65)]), 'route': rng.choice(ROUTES)}
         yield {'op': 'seq', 'cls': rng.choice(CLASSES), 'bits': bits, 'route': rng.choice(ROUTES)}
         # concatenation
@@ -59,6 +64,7 @@ def run_impl(c):
         a, b, s = c['k']
         return attempt(lambda: ''.join(list(c['bits'])[slice(a, b, s)]))
     s = build(c['cls'], c['bits'], c['route'], c.get('pos'))
+    if c.get('lsb0'): bitstring.options.lsb0 = True          # the object is built under msb0; only the indexing runs under lsb0 (reset by the driver)
     if op == 'slice':
         a, b, st = c['k']
         def f():
@@ -90,6 +96,20 @@ def oracle(c, obs):
     op = c['op']
     bits = c['bits']
     if op == 'l0_slice': return None
+    if c.get('lsb0'):
+        # under lsb0 the object is the sequence of its bits counted from the other end
+        rb = bits[::-1]
+        if op == 'slice':
+            a, b, st = c['k']
+            try: exp = ('ok', rb[a:b:st][::-1])
+            except ValueError: exp = ('err', 'ValueError')
+            if exp[0] == 'err': return None if obs == exp else f"lsb0 {c['cls']}({bits!r})[{a}:{b}:{st}] should raise ValueError, got {obs}"
+            if obs[0] != 'ok' or obs[1][0] != exp[1] or obs[1][1] != c['cls']: return f"lsb0 {c['cls']}({bits!r})[{a}:{b}:{st}] gave {obs}, the reversed-sequence model gives {exp[1]!r}"
+            return None
+        if op == 'getitem':
+            i = c['i']
+            exp = ('ok', rb[i] == '1') if -len(bits) <= i < len(bits) else ('err', 'IndexError')
+            return None if obs == exp else f"lsb0 {c['cls']}({bits!r})[{i}] gave {obs}, expected {exp}"
     if op == 'slice':
         a, b, st = c['k']
         try: exp = ('ok', bits[a:b:st])
@@ -133,9 +153,9 @@ def coq_check(c, obs):
         return f"rbits_eqb (seq_slice false {cbits(c['bits'])} {cslice(*c['k'])}) {cres(obs, cbits)}"
     if op == 'slice':
         o = ('ok', obs[1][0]) if obs[0] == 'ok' else obs
-        return f"rbits_eqb (bs_getitem_slice false {cbits(c['bits'])} {cslice(*c['k'])}) {cres(o, cbits)}"
+        return f"rbits_eqb (bs_getitem_slice {cbool(bool(c.get('lsb0')))} {cbits(c['bits'])} {cslice(*c['k'])}) {cres(o, cbits)}"
     if op == 'getitem':
-        return f"rbool_eqb (bs_getitem_int false {cbits(c['bits'])} {cz(c['i'])}) {cres(obs, cbool)}"
+        return f"rbool_eqb (bs_getitem_int {cbool(bool(c.get('lsb0')))} {cbits(c['bits'])} {cz(c['i'])}) {cres(obs, cbool)}"
     if op == 'seq':
         if obs[0] != 'ok': return 'false'
         l, t, it, _ = obs[1]
